@@ -143,8 +143,21 @@ def search_op(w, tag, kinds=('find', 'facet', 'fe')):
             return
         d = free[ch.choose(tag + '.facet', len(free))]
         p = basis.Params(runids=runarg, **{x: (cons.get(x) if x != d else []) for x in DIMS})
+        via_fe = ch.flip(tag + '.facet_fe', 1, 2)
         try:
-            got = dawgie.db.search().facet(p)
+            if via_fe:
+                import dawgie.fe.api.facet as fefacet
+
+                fn = {'targets': fefacet.target, 'tasks': fefacet.task, 'algs': fefacet.alg, 'svs': fefacet.sv}[d]
+                kw = {x: [','.join(v)] for x, v in cons.items()}
+                obj = json.loads(fn(runids=[expr] if expr is not None else None, **kw).decode())
+                if obj['status'] != 'success':
+                    raise RuntimeError(f'front end answered {obj}')
+                got = obj['content']
+                text = f'runids={expr!r} ' + ' '.join(f'{x}={v}' for x, v in cons.items()) + ' (fe.api.facet)'
+                w.probes['facet_via_front_end'] += 1
+            else:
+                got = dawgie.db.search().facet(p)
         except Exception as e:  # noqa
             w.violate('C17', 'facet_raised', type(e).__name__, f'facet {d} with {text} raised {e!r}', fatal=False)
             return
